@@ -333,6 +333,11 @@ C07 == [][C07Step]_vars
 (* defined, finite score; chained stages never widen a range.               *)
 C08Range == \A i \in H(cfg) : InRange(cfg, i, val[i])
 C08Done == pc = "done" => Defined(cur)
+(* C04 (the part that concerns the optimiser): a parameter the crystal      *)
+(* family of the group does not leave free (declared range of width zero)  *)
+(* never moves, so the cell keeps the metric symmetry of its group.         *)
+C04Frozen == \A i \in H(cfg) : cfg.lo[i] = cfg.hi[i] =>
+                (Fx(val[i]) >= cfg.lo[i] - Tol /\ Fx(val[i]) <= cfg.hi[i] + Tol)
 C08Chain == (pc = "done" /\ pc' = "new" /\ stage' = stage + 1) =>
                /\ val' = val
                /\ \A i \in H(cfg) : cfg'.hi[i] <= cfg.hi[i] + Tol /\ cfg'.lo[i] >= cfg.lo[i] - Tol
